@@ -1,5 +1,7 @@
 (* C11 — property theorems only (the regenerated index obligations live in Gen_C11.v). *)
 Require Import V.Lib V.C11_Model V.C11_Proofs V.Gen_C11.
+Require V.C09_Model.
+Require Import V.C11_Exec V.C11_ExecProofs.
 Open Scope Z_scope.
 
 (* Every Dispenser operation a setup function can call is TOTAL (no index out of range, whatever
@@ -55,3 +57,115 @@ Print Assumptions C11_fresh_dispenser_ok.
 Theorem C11_index_obligations_hold : c11_all_obligations.
 Proof. exact c11_all_obligations_hold. Qed.
 Print Assumptions C11_index_obligations_hold.
+
+Close Scope Z_scope.
+(* ---- validate and start agree: over the executeDirectives model of C09_Model ([C09_Model.execute],
+   cbs = negb justValidate), for EVERY setup function, callback, directive list, server blocks and
+   initial state ---- *)
+
+(* Both modes draw their setup calls from ONE schedule, a function of the directive list and the
+   server blocks alone: the calls really made (recorded by the calls themselves) are an initial
+   segment of it, in its order, and all of it when the configuration is accepted. *)
+Theorem C11_calls_follow_schedule :
+  forall (A St : Type) (setup : bytes -> nat -> nat -> bytes -> list A -> St -> C09_Model.outcome St)
+         (callback : bytes -> St -> C09_Model.outcome St) (cbs : bool) (dirs : list bytes)
+         (bs : list (@C09_Model.block A)) (s : St),
+  exists rest, schedule dirs bs = calls setup callback cbs dirs bs s ++ rest /\
+  (accepted setup callback cbs dirs bs s = true -> rest = []).
+Proof. exact @calls_follow_schedule. Qed.
+Print Assumptions C11_calls_follow_schedule.
+
+(* ... and the schedule holds one call for every key of every block that writes the directive, with
+   that block's tokens — so an accepted validation has set the directive up for every key, not for
+   the first one only. *)
+Theorem C11_schedule_covers_every_key :
+  forall (A : Type) (dirs : list bytes) (bs : list (@C09_Model.block A)) d i b j k toks,
+  In d dirs -> nth_error bs i = Some b -> nth_error (fst b) j = Some k ->
+  C09_Model.tokens_of (snd b) d = Some toks -> In (d, i, j, k, toks) (schedule dirs bs).
+Proof. exact @schedule_covers_every_key. Qed.
+Print Assumptions C11_schedule_covers_every_key.
+Example C11_schedule_covers_every_key_nonvacuous :
+  In ([100%N], 0%nat, 1%nat, [2%N], [0%N])
+     (schedule [[100%N]] [([[1%N]; [2%N]], [([100%N], [0%N])])]).
+Proof. vm_compute. auto. Qed.
+
+(* the recording does not change what is executed *)
+Theorem C11_logging_faithful :
+  forall (A St : Type) (setup : bytes -> nat -> nat -> bytes -> list A -> St -> C09_Model.outcome St)
+         (callback : bytes -> St -> C09_Model.outcome St) cbs dirs bs s,
+  C09_Model.out_ok (run_logged setup callback cbs dirs bs s) = accepted setup callback cbs dirs bs s /\
+  fst (C09_Model.out_state (run_logged setup callback cbs dirs bs s)) =
+  C09_Model.out_state (C09_Model.execute setup callback cbs dirs bs s).
+Proof. exact @logging_faithful. Qed.
+Print Assumptions C11_logging_faithful.
+
+(* Agreement proper. If what the start-only callbacks change is invisible to the setup functions
+   (R relates states that setups cannot tell apart: related states give both-accept with related
+   results, or both-reject) and the callbacks themselves do not fail, then validation and start
+   accept the same configurations and make exactly the same setup calls in the same order. *)
+Theorem C11_validate_start_agree :
+  forall (A St : Type) (setup : bytes -> nat -> nat -> bytes -> list A -> St -> C09_Model.outcome St)
+         (callback : bytes -> St -> C09_Model.outcome St) (R : St -> St -> Prop),
+  (forall d i j k t s1 s2, R s1 s2 -> orel R (fun _ _ => True) (setup d i j k t s1) (setup d i j k t s2)) ->
+  (forall d s1 s2, R s1 s2 -> exists s2', callback d s2 = C09_Model.Cont s2' /\ R s1 s2') ->
+  forall dirs bs s1 s2, R s1 s2 ->
+  accepted setup callback false dirs bs s1 = accepted setup callback true dirs bs s2 /\
+  calls setup callback false dirs bs s1 = calls setup callback true dirs bs s2.
+Proof. exact @validate_start_agree. Qed.
+Print Assumptions C11_validate_start_agree.
+
+(* the hypotheses are satisfiable by something that is not trivial: setups that count their calls
+   and reject a token 7, callbacks that count theirs; R ignores the callback counter; the example
+   configuration has two keys, is rejected at its second block, and makes calls *)
+Definition ex_setup (d : bytes) (i j : nat) (k : bytes) (toks : list N) (s : nat * nat) : C09_Model.outcome (nat * nat) :=
+  if existsb (N.eqb 7) toks then C09_Model.Stop s else C09_Model.Cont (S (fst s), snd s).
+Definition ex_callback (d : bytes) (s : nat * nat) : C09_Model.outcome (nat * nat) := C09_Model.Cont (fst s, S (snd s)).
+Example C11_validate_start_agree_nonvacuous :
+  let R := fun a b : nat * nat => fst a = fst b in
+  (forall d i j k t s1 s2, R s1 s2 -> orel R (fun _ _ => True) (ex_setup d i j k t s1) (ex_setup d i j k t s2)) /\
+  (forall d s1 s2, R s1 s2 -> exists s2', ex_callback d s2 = C09_Model.Cont s2' /\ R s1 s2') /\
+  R (0, 0)%nat (0, 0)%nat /\
+  length (calls ex_setup ex_callback true [[100%N]; [101%N]]
+            [([[1%N]; [2%N]], [([100%N], [0%N])]); ([[3%N]], [([101%N], [7%N])])] (0, 0)%nat) = 3%nat /\
+  accepted ex_setup ex_callback true [[100%N]; [101%N]]
+            [([[1%N]; [2%N]], [([100%N], [0%N])]); ([[3%N]], [([101%N], [7%N])])] (0, 0)%nat = false.
+Proof.
+  cbn zeta. split; [|split; [|split; [|split]]].
+  - intros d i j k t s1 s2 H. unfold ex_setup. destruct (existsb (N.eqb 7) t); cbn; auto.
+  - intros d s1 s2 H. eexists. split; [reflexivity|]. cbn. exact H.
+  - reflexivity.
+  - vm_compute. reflexivity.
+  - vm_compute. reflexivity.
+Qed.
+
+(* Without those hypotheses the statement "validate and start agree" is false of the model (as it is of
+   the code: parsing callbacks only run on a start and may fail for reasons of the environment). *)
+Theorem C11_validate_start_agree_unconditional_refuted :
+  exists (setup : bytes -> nat -> nat -> bytes -> list N -> N -> C09_Model.outcome N)
+         (callback : bytes -> N -> C09_Model.outcome N) dirs bs s,
+    accepted setup callback false dirs bs s = true /\ accepted setup callback true dirs bs s = false.
+Proof. exact agree_unconditional_refuted. Qed.
+Print Assumptions C11_validate_start_agree_unconditional_refuted.
+
+(* Strongest unconditional-in-the-setups statement: when callbacks leave the state alone (they may
+   fail), whatever a start accepts validation accepts, and the start's setup calls are an initial
+   segment of validation's. *)
+Theorem C11_validate_start_agree_partial :
+  forall (A St : Type) (setup : bytes -> nat -> nat -> bytes -> list A -> St -> C09_Model.outcome St)
+         (callback : bytes -> St -> C09_Model.outcome St),
+  (forall d s, C09_Model.out_state (callback d s) = s) ->
+  forall dirs bs s,
+  (accepted setup callback true dirs bs s = true -> accepted setup callback false dirs bs s = true) /\
+  exists rest, calls setup callback false dirs bs s = app (calls setup callback true dirs bs s) rest.
+Proof. exact @start_is_prefix_of_validate. Qed.
+Print Assumptions C11_validate_start_agree_partial.
+Example C11_validate_start_agree_partial_nonvacuous :
+  (forall d s, C09_Model.out_state (failing_callback d s) = s) /\
+  accepted ok_setup failing_callback true [[100%N]] [([[]], [([100%N], [0%N])])] 0%N = false.
+Proof. split; [reflexivity|vm_compute; reflexivity]. Qed.
+
+(* the oracle instance the correspondence check evaluates predicts the same class in both modes *)
+Theorem C11_predict_block_mode_independent :
+  forall perkey, predict_block false perkey = predict_block true perkey.
+Proof. exact predict_block_mode_independent. Qed.
+Print Assumptions C11_predict_block_mode_independent.
